@@ -108,9 +108,8 @@ Proof.
   split; [|split; [exact HN|intros x Hx; apply Ho; auto]].
   destruct (q_chain s) as [|h r] eqn:E; [exact HC|].
   destruct HC as (A & B & C). split; [eapply Hh; eauto|]. split; [|exact C].
-  apply (links_mono_adj s); auto.
-  - intros y Hy. eapply Hw; eauto.
-  - eapply Hn; eauto.
+  apply (links_mono_adj s);
+    [ intros x y Hxy L; apply Hl; auto | intros y Hy W; eapply Hw; eauto | intros H; eapply Hn; eauto | exact B ].
 Qed.
 
 Lemma qsl_inv_step s p fl : qsl_inv s -> qsl_inv (fst (qsl_step s p fl)).
